@@ -441,6 +441,11 @@ def reuse_check(ctx, c, outs):
         d = A.data.copy()
         d[k] = new
         A.data = d
+    elif c["edit"] == "setter":
+        for nm, val in zip("abcd", new):         # whole-component assignment through the property setters
+            comp = np.array(getattr(A, nm), copy=True)
+            comp[k] = val
+            setattr(A, nm, comp)
     else:
         A.a[k], A.b[k], A.c[k], A.d[k] = new
     cur = A.data.copy()
@@ -627,7 +632,7 @@ def generate(ctx):
         na = int(rng.integers(2, 6))
         c = {"cls": ["Q", "R"][k % 2], "a": [G.unit_quat(rng)[0] for _ in range(na)], "fa": [bool(rng.integers(2)) for _ in range(na)],
              "b": [G.unit_quat(rng)[0] for _ in range([na, 3][k % 2])], "v": [G.vec(rng) for _ in range(na)],
-             "new": G.unit_quat(rng)[0], "k": int(rng.integers(na)), "edit": ["setitem", "data", "component"][k % 3],
+             "new": G.unit_quat(rng)[0], "k": int(rng.integers(na)), "edit": ["setitem", "data", "component", "setter"][k % 4],
              "strided": bool(k % 4 == 0 and na >= 4)}
         if c["strided"]:
             c["b"] = c["b"][: (na + 1) // 2] if k % 2 == 0 else c["b"]
